@@ -238,7 +238,7 @@ fn exec(sc: &Scn, render: bool) -> RunOutput {
         }
     }
     drop(obs);
-    let out = RunOutput { steps: w.sim.steps, fingerprints: fps, outcome: h.0, violations: viol, witnesses: wit, horizon, rendering: render.then(|| w.sim.render_log().join(" ")) };
+    let out = RunOutput { blocked: false, steps: w.sim.steps, fingerprints: fps, outcome: h.0, violations: viol, witnesses: wit, horizon, rendering: render.then(|| w.sim.render_log().join(" ")) };
     w.sim.teardown();
     out
 }
